@@ -45,6 +45,20 @@ def programs(ctx):
     for key in (P("String"), P("u8"), P("i64"), P("char"), P("u128"), N("U2")):   # bool keys: `[key in boolean]` is not expressible in TypeScript; outside the domain
         for impl in ("HashMap", "BTreeMap"):
             add({"k": "map", "a": key, "b": rng.choice([P("u8"), N("U1"), OPT(P("String"))]), "impl": impl}, 2)
+    # every argument position of every constructor holds a user type THROUGH another library type (its generics must still be visited)
+    W = lambda w, t: {"k": "wrap", "w": w, "t": t}
+    for impl in ("HashMap", "BTreeMap"):
+        for key in (W("box", N("U2")), W("arc", N("U2")), W("rc", N("U2"))):
+            add({"k": "map", "a": key, "b": VEC(N("U1")), "impl": impl}, 1)
+        add({"k": "map", "a": P("String"), "b": W("box", N("U3", N("U1"))), "impl": impl}, 1)
+    for outer in ("option", "vec"):
+        for inner in (W("box", N("U1")), VEC(N("U2")), OPT(W("arc", N("U3", N("U2")))), {"k": "tuple", "ts": [N("U1"), W("rc", N("U2"))]}):
+            add({"k": outer, "t": inner}, 1)
+    add({"k": "arr", "t": W("box", N("U1")), "n": 2}, 1)
+    add({"k": "tuple", "ts": [W("box", N("U1")), VEC(W("arc", N("U2")))]}, 1)
+    add({"k": "result", "a": W("box", N("U1")), "b": VEC(N("U2"))}, 2)
+    for impl in ("HashSet", "BTreeSet"):
+        add({"k": "set", "t": W("box", N("U2")), "impl": impl}, 1)
     for impl in ("Range", "RangeInclusive"):
         for p in ("u8", "i64", "usize"):
             add({"k": "range", "t": P(p), "impl": impl}, 1)
